@@ -247,6 +247,16 @@ def run_case(case):
     outcome = rec["outcome"] if rec else status
     answers = [a for a in net.answers if a is not None]
     ntx = len(net.transmissions)
+    if rec and rec.get("resp") is not None and state.get("rec2") is not None:
+        # the caller kept the first response while the second request ran: it is still exactly the bytes it was
+        try:
+            now = bytes(rec["resp"].raw_data)
+        except Exception as e:  # noqa
+            now = repr(e).encode()
+        if now != rec["raw"]:
+            violations.append(viol(f"C07:result-changed-later:{fr}",
+                                   f"the response returned for the first request was {rec['raw'].hex()} when it was "
+                                   f"returned and is {now.hex()} after the next request on the same object"))
     if case["kind"] == "pos":
         if status != "ok":
             violations.append(viol(f"C07:no-success:{fr}", f"fragmented answer: request did not terminate ({status})"))
